@@ -3,6 +3,7 @@ from ..lib import *
 from ..terms import TermBuilder
 from .. import codec
 
+NEED_DEPS = True
 USES_QUERIES = True
 EXPLANATION = (
     "Static rule checking over the resolved MIR of /repo. C01.1 census: every aggregate construction of an EnvelopeCase "
@@ -14,7 +15,7 @@ EXPLANATION = (
     "from_digests([digest(subject)] ++ map(digest, sorted assertions))); C01.3: DigestProvider for Envelope returns, per "
     "variant arm, that arm's own stored/declared digest and the match is exhaustive; C01.4: no mutation path (no projected "
     "assignment through Envelope/EnvelopeCase/Assertion, no Rc/Arc get_mut/make_mut/try_unwrap, no interior mutability in the "
-    "type tree, no &mut self method); C01.5: every decoder accept value is a constructor call over the decoded children (node = constructor(decode(elements[0]), decode(elements[1..]))); C01.6 route independence: a node's digest is a function of the set of its assertion digests, so the add path refuses an element whose digest is present and the remove path takes out exactly the element with the target's digest (the C04.1/C04.3/C04.5 instances re-evaluated here: every assertion vector handed to a node constructor has a recognised non-empty, duplicate-free form). The digest list and the stored vector are compared in sequence normal form (vec!+push loop, extend(map), once().chain().map().collect() are the same sequence); a comparator may be a closure or a crate function. Does not decide SHA-256, dCBOR serialisation or Digest::from_digests' concatenation.")
+    "type tree, no &mut self method); C01.5: every decoder accept value is a constructor call over the decoded children (node = constructor(decode(elements[0]), decode(elements[1..]))); C01.6 route independence: a node's digest is a function of the set of its assertion digests, so the add path refuses an element whose digest is present and the remove path takes out exactly the element with the target's digest (the C04.1/C04.3/C04.5 instances re-evaluated here: every assertion vector handed to a node constructor has a recognised non-empty, duplicate-free form). The digest list and the stored vector are compared in sequence normal form (vec!+push loop, extend(map), once().chain().map().collect() are the same sequence); a comparator may be a closure or a crate function. C01.7: every digest-declaring sink (elide / encrypt / compress, incl. the action arms of the obscuring descent) declares the digest of the very element it replaces (the C02.1/C02.2 instances). Does not decide SHA-256, dCBOR serialisation or Digest::from_digests' concatenation.")
 TRUSTED = ['Digest::from_image = SHA-256 of its argument', 'Digest::from_digests hashes the concatenation of the slice in order',
            'CBOR::to_cbor_data is the dCBOR serialisation']
 ASSUMPTIONS = ['dependencies behave as their documented summaries']
@@ -450,3 +451,12 @@ def check(ctx):
         C04.check(Relabel(ctx, 'C01.6', ['C04.1', 'C04.3', 'C04.5']))
     except Exception as e:
         ctx.fail('C01.6', '-', 'route-independence obligations (C04.3/C04.5) could not be evaluated: %r' % e, key='C01.6|c04')
+    # C01.7: "the declared digest for an elided, encrypted or compressed element": every digest-declaring sink pairs its payload with
+    # the digest of the very element it replaces (the C02.1 / C02.2 instances: the sinks, and the action arms of the obscuring descent)
+    from .. import obscure
+    try:
+        obscure.check_sinks(ctx, 'C01.7')
+        obscure.check_obscure_region(ctx, 'C01.7/action')
+        obscure.check_elide_primitive(ctx, 'C01.7/elide')
+    except Exception as e:
+        ctx.fail('C01.7', '-', 'declared-digest pairing (C02.1/C02.2) could not be evaluated: %r' % e, key='C01.7|c02')
